@@ -13,7 +13,7 @@
     [kcfg] records, per indexing site, how the SOURCE guards it (read from the AST on every run by
     translate/c03_kvparse.py): the model follows the code, and [cfg_safe] is what [KvErrProofs.no_foreign] needs. *)
 From Coq Require Import List NArith Bool.
-From SV Require Import Text.Str Text.Tokenizer.
+From SV Require Import Text.Str Text.Prog Text.Tokenizer.
 Import ListNotations.
 Open Scope N_scope.
 
@@ -196,4 +196,11 @@ Definition kv_tok_opts (allow_esc : bool) : opts := {|
 Definition kv_parse_text (T : tables) (cfg : kcfg) (ko : kopts) (allow_esc : bool) (flags defaults : list (str * bool))
     (text : str) : outcome :=
   let '(ts, fin) := split_trace (tokens_flat T (kv_tok_opts allow_esc) (S (length text)) (S (length text)) 1 false text) in
+  parse_tokens cfg ko (casefold T) flags defaults fin ts.
+
+(** [Keyvalues.parse(iterable of chunks)]: the same composition over the chunked reader state of the real class. *)
+Definition kv_parse_chunks (T : tables) (cfg : kcfg) (ko : kopts) (allow_esc : bool) (flags defaults : list (str * bool))
+    (cs : list str) : outcome :=
+  let n := S (length (concat cs)) in
+  let '(ts, fin) := split_trace (tokens_chk T (kv_tok_opts allow_esc) n n 1 false (chk_of_chunks cs)) in
   parse_tokens cfg ko (casefold T) flags defaults fin ts.
